@@ -21,7 +21,7 @@ class Mesh:
     pass
 
 
-def build_mesh(ctx, shape, symmetric_lengths=False, with_oms=True, long_links=(), hi_km=1000):
+def build_mesh(ctx, shape, symmetric_lengths=False, with_oms=True, long_links=(), hi_km=1000, two_fibre_links=()):
     """network (DiGraph of real elements) for a shape; fibre length of every directed link is a symbolic real in km"""
     from gnpy.topology.spectrum_assignment import build_oms_list
     n, pairs = SHAPES[shape]
@@ -31,6 +31,7 @@ def build_mesh(ctx, shape, symmetric_lengths=False, with_oms=True, long_links=()
         els += [{'uid': f'trx {s}', 'type': 'Transceiver'}, {'uid': f'roadm {s}', 'type': 'Roadm'}]
         cx += [{'from_node': f'trx {s}', 'to_node': f'roadm {s}'}, {'from_node': f'roadm {s}', 'to_node': f'trx {s}'}]
     lengths = {}
+    lengths2 = {}
     links = []
     for (x, y) in pairs:
         for (u, v) in ((x, y), (y, x)):
@@ -45,6 +46,17 @@ def build_mesh(ctx, shape, symmetric_lengths=False, with_oms=True, long_links=()
             els.append({'uid': aid, 'type': 'Edfa', 'type_variety': 'std_medium_gain',
                         'operational': {'gain_target': 20.0, 'tilt_target': 0, 'out_voa': 0}})
             names = [f'roadm {u}', fid, aid, f'roadm {v}']
+            if frozenset((u, v)) in two_fibre_links:
+                # the link is described as two fibres of different lengths plugged into each other (no amplifier in between)
+                if symmetric_lengths and (v, u) in lengths2:
+                    L2 = lengths2[(v, u)]
+                else:
+                    L2 = ctx.real(f'km {u}->{v} second fibre', lo=1, hi=hi_km)
+                lengths2[(u, v)] = L2
+                lengths[(u, v)] = L + L2
+                els.append({'uid': fid + ' b', 'type': 'Fiber', 'type_variety': 'SSMF',
+                            'params': {'length': L2, 'length_units': 'km', 'loss_coef': 0.2, 'con_in': 0, 'con_out': 0, 'att_in': 0}})
+                names = [f'roadm {u}', fid, fid + ' b', aid, f'roadm {v}']
             cx += [{'from_node': a, 'to_node': b} for a, b in zip(names[:-1], names[1:])]
             links.append((u, v))
     eqpt = equipment()
